@@ -895,8 +895,12 @@ class IndexLevelGO(IndexLevel):
         for depth, k in enumerate(key):
             edge_nodes[depth] = node
             # only set on first encounter in descent
-            if depth_not_found == -1 and not node.index.__contains__(k):
-                depth_not_found = depth
+            if depth_not_found == -1:
+                if not node.index.__contains__(k):
+                    depth_not_found = depth
+                elif node.targets is not None and node.index._loc_to_iloc(k) != node.index.__len__() - 1:
+                    # the descent follows the last child: an existing label can only be extended if it is the last at its depth
+                    raise RuntimeError(f'cannot append {key}: {k} is not the last label at depth {depth}; labels must remain in tree order')
             if node.targets is not None:
                 node = node.targets[-1]
 
